@@ -421,7 +421,9 @@ struct AllocSim {
     std::string k;
     char buf[96];
     int fa = first_alive();
-    snprintf(buf, sizeof buf, "H%d%d%d|", hstate[0], hstate[1], hstate[2]);
+    size_t lbytes = 0;
+    for (auto& kv : BL().live) lbytes += kv.second;
+    snprintf(buf, sizeof buf, "H%d%d%d|led%zu/%zu|", hstate[0], hstate[1], hstate[2], BL().live.size(), lbytes);
     k += buf;
     if (fa < 0) return k + "dead";
     // private state, for de-duplication only
